@@ -141,6 +141,10 @@ func planSession(t *testing.T, run *ev.Run, si, nPlans int) *violation {
 	var history []string
 	for k := 0; k < nPlans; k++ {
 		committee := r.Intn(7) != 0
+		// precede: a faulting transaction of another sender sits right before the
+		// plan in the same block (the block's VM is reused); the plan should then
+		// halt and make calls under try, with and without the callee throwing.
+		precede := r.Intn(20) < 7
 		var (
 			root, pruned []step
 			work         *model
@@ -161,6 +165,9 @@ func planSession(t *testing.T, run *ev.Run, si, nPlans int) *violation {
 			work.stats = &planStats{}
 			res, pruned = work.run(rootSlot, fAll, root, false, 0)
 			if res != rUnmodelled {
+				if precede && attempt < 30 && (res != rOK || work.stats.wrappedOK == 0 || (k%2 == 0 && work.stats.caughtAtCaller+work.stats.caughtAtAncestor == 0)) {
+					continue
+				}
 				break
 			}
 			run.Obs("plans_regenerated_unmodelled", 1)
@@ -191,7 +198,7 @@ func planSession(t *testing.T, run *ev.Run, si, nPlans int) *violation {
 		}
 		sysFee := int64(40+25*heavySteps(root)) * 1_0000_0000
 		outOfGas := false
-		if x := r.Intn(10); x < 4 {
+		if x := r.Intn(10); x < 4 && !precede {
 			// chain A alone test-invokes the script first (as an RPC client would):
 			// a discarded execution must leave nothing behind either
 			tx := transaction.New(sA, sysFee)
@@ -209,10 +216,26 @@ func planSession(t *testing.T, run *ev.Run, si, nPlans int) *violation {
 				run.Obs("plans_out_of_gas_in_the_middle", 1)
 			}
 		}
+		sameTwin := precede && !wantFault && r.Intn(2) == 0
+		if sameTwin {
+			sB = sA // the twin differs in the preceding transaction only
+		}
 		ta, tb, err := w.txPair("plan", signers, sA, sB, sysFee)
 		if err != nil {
 			run.Inconclusive("plans/s%d: %v", si, err)
 			return nil
+		}
+		var fa, fb *transaction.Transaction
+		precDesc := ""
+		if precede {
+			var fs []byte
+			var fee int64
+			fs, fee, precDesc = w.faultingScript(r, m)
+			fa, fb, err = w.txPair("preceding-fault", []neotest.Signer{w.A.Users[6].S}, fs, abortScript, fee)
+			if err != nil {
+				run.Inconclusive("plans/s%d: %v", si, err)
+				return nil
+			}
 		}
 		var pre, post []*transaction.Transaction
 		if r.Intn(3) == 0 {
@@ -224,7 +247,7 @@ func planSession(t *testing.T, run *ev.Run, si, nPlans int) *violation {
 		if r.Intn(4) == 0 {
 			post = append(post, w.smallTransfer(4, 3, int64(1+r.Intn(100))))
 		}
-		desc := fmt.Sprintf("#%d committee=%v oog=%v want=%s: %s", k, committee, outOfGas, map[bool]string{true: "FAULT", false: "HALT"}[wantFault], planString(root))
+		desc := fmt.Sprintf("#%d committee=%v oog=%v preceded-by=[%s] want=%s: %s", k, committee, outOfGas, precDesc, map[bool]string{true: "FAULT", false: "HALT"}[wantFault], planString(root))
 		history = append(history, desc)
 		wit := func(extra map[string]any) map[string]any {
 			h := history
@@ -232,14 +255,40 @@ func planSession(t *testing.T, run *ev.Run, si, nPlans int) *violation {
 				h = h[len(h)-12:]
 			}
 			m := map[string]any{"session": si, "protocol": w.proto, "plan_index": k, "plan": planString(root), "pruned": planString(pruned), "reference_result": map[bool]string{true: "FAULT", false: "HALT"}[wantFault],
-				"height": w.A.BC.BlockHeight(), "position_in_block": len(pre), "system_fee": sysFee, "out_of_gas_variant": outOfGas, "script_hex": fmt.Sprintf("%x", sA), "session_so_far": h}
+				"height": w.A.BC.BlockHeight(), "position_in_block": len(pre), "system_fee": sysFee, "out_of_gas_variant": outOfGas, "preceding_faulting_tx_in_block": precDesc, "twin_runs_the_same_plan": sameTwin, "script_hex": fmt.Sprintf("%x", sA), "session_so_far": h}
 			for k, v := range extra {
 				m[k] = v
 			}
 			return m
 		}
-		if err := w.addPair(pre, ta, tb, post); err != nil {
+		la := append([]*transaction.Transaction{}, pre...)
+		lb := append([]*transaction.Transaction{}, pre...)
+		skip := []int{len(pre)}
+		if precede {
+			la, lb = append(la, fa), append(lb, fb)
+			skip = []int{len(pre), len(pre) + 1}
+			if sameTwin {
+				skip = skip[:1] // the plan's execution result must be identical too
+			}
+		}
+		la, lb = append(append(la, ta), post...), append(append(lb, tb), post...)
+		if err := w.addLists(la, lb); err != nil {
 			return &violation{"block-rejected", err.Error(), wit(nil)}
+		}
+		sfx := ""
+		vio := func(sig, detail string, wt map[string]any) *violation { return &violation{sig + sfx, detail, wt} }
+		if precede {
+			sfx = ":preceded-by-faulted-tx"
+			run.Obs("plans_preceded_by_faulting_tx_in_block", 1)
+			run.Obs("preceding_fault_"+strings.SplitN(precDesc, ":", 2)[0], 1)
+			if af := aerOf(w.A.BC, fa.Hash()); af == nil || af.VMState == vmstate.Halt {
+				run.Inconclusive("plans/s%d #%d: the preceding transaction did not fault: %s", si, k, precDesc)
+				return nil
+			}
+			if !wantFault {
+				run.Obs("plans_halting_after_faulted_tx_calls_under_try_returned", int64(st.wrappedOK))
+				run.Obs("plans_halting_after_faulted_tx_calls_under_try_thrown", int64(st.caughtAtCaller+st.caughtAtAncestor))
+			}
 		}
 		aerA, aerB := aerOf(w.A.BC, ta.Hash()), aerOf(w.B, tb.Hash())
 		if aerA == nil || aerB == nil {
@@ -307,7 +356,7 @@ func planSession(t *testing.T, run *ev.Run, si, nPlans int) *violation {
 			if wantFault {
 				sig = "plan:fault-expected-but-halted"
 			}
-			return &violation{sig, fmt.Sprintf("reference says %v, chain says %s (%s)", map[bool]string{true: "FAULT", false: "HALT"}[wantFault], aerA.VMState, aerA.FaultException), wit(map[string]any{"fault_exception": aerA.FaultException})}
+			return vio(sig, fmt.Sprintf("reference says %v, chain says %s (%s)", map[bool]string{true: "FAULT", false: "HALT"}[wantFault], aerA.VMState, aerA.FaultException), wit(map[string]any{"fault_exception": aerA.FaultException}))
 		}
 		if !wantFault && aerB.VMState != vmstate.Halt {
 			run.Obs("reference_pruned_plan_faulted", 1)
@@ -326,17 +375,17 @@ func planSession(t *testing.T, run *ev.Run, si, nPlans int) *violation {
 		for s := 0; s < nSlots; s++ {
 			ex, ver, kv := w.storageOfSlot(w.A.BC, s)
 			if ex != exp.exists[s] {
-				return &violation{"plan-vs-reference:contract-existence", fmt.Sprintf("contract P%d exists=%v, reference says %v", s, ex, exp.exists[s]), wit(nil)}
+				return vio("plan-vs-reference:contract-existence", fmt.Sprintf("contract P%d exists=%v, reference says %v", s, ex, exp.exists[s]), wit(nil))
 			}
 			if !ex {
 				continue
 			}
 			if ver != exp.ver[s] {
-				return &violation{"plan-vs-reference:contract-version", fmt.Sprintf("contract P%d has version %d, reference says %d", s, ver, exp.ver[s]), wit(nil)}
+				return vio("plan-vs-reference:contract-version", fmt.Sprintf("contract P%d has version %d, reference says %d", s, ver, exp.ver[s]), wit(nil))
 			}
 			want := sortedKV(exp.st[s])
 			if strings.Join(kv, ";") != strings.Join(want, ";") {
-				return &violation{"plan-vs-reference:storage:" + classify(kv, want, wantFault), fmt.Sprintf("storage of P%d: chain %v, reference %v", s, kv, want), wit(map[string]any{"contract": s, "chain_storage": kv, "reference_storage": want})}
+				return vio("plan-vs-reference:storage:"+classify(kv, want, wantFault), fmt.Sprintf("storage of P%d: chain %v, reference %v", s, kv, want), wit(map[string]any{"contract": s, "chain_storage": kv, "reference_storage": want}))
 			}
 		}
 		run.Obs("storages_compared_with_reference", nSlots)
@@ -362,12 +411,12 @@ func planSession(t *testing.T, run *ev.Run, si, nPlans int) *violation {
 		}
 		if !wantFault {
 			if strings.Join(gotN, ",") != strings.Join(work.notes, ",") {
-				return &violation{"plan-vs-reference:notifications:" + classify(gotN, work.notes, false), fmt.Sprintf("notifications: chain %v, reference %v", gotN, work.notes), wit(map[string]any{"chain_notifications": gotN, "reference_notifications": work.notes})}
+				return vio("plan-vs-reference:notifications:"+classify(gotN, work.notes, false), fmt.Sprintf("notifications: chain %v, reference %v", gotN, work.notes), wit(map[string]any{"chain_notifications": gotN, "reference_notifications": work.notes}))
 			}
 			run.Obs("notifications_compared_with_reference", int64(len(gotN)))
 			ea, eb := eventsString(aerA), eventsString(aerB)
 			if strings.Join(ea, ",") != strings.Join(eb, ",") {
-				return &violation{"plan-vs-pruned-twin:events:" + classify(ea, eb, false), fmt.Sprintf("all notifications incl. native ones: plan %v, pruned plan %v", ea, eb), wit(map[string]any{"plan_events": ea, "pruned_events": eb})}
+				return vio("plan-vs-pruned-twin:events:"+classify(ea, eb, false), fmt.Sprintf("all notifications incl. native ones: plan %v, pruned plan %v", ea, eb), wit(map[string]any{"plan_events": ea, "pruned_events": eb}))
 			}
 			run.Obs("events_compared_with_pruned_twin", int64(len(ea)))
 		} else if len(aerA.Events) != 0 {
@@ -376,12 +425,14 @@ func planSession(t *testing.T, run *ev.Run, si, nPlans int) *violation {
 		// 3. chain A against the twin
 		oa, ob := w.obsA(), w.obsB()
 		run.Obs("observations_compared", 1)
-		if name, d := diffObs(oa, ob, len(pre)); name != "" {
+		if name, d := diffObs(oa, ob, skip...); name != "" {
 			twin := "pruned-twin"
 			if wantFault {
 				twin = "abort-twin"
+			} else if sameTwin {
+				twin = "same-plan-twin"
 			}
-			return &violation{"plan-vs-" + twin + ":" + name, d, wit(nil)}
+			return vio("plan-vs-"+twin+":"+name, d, wit(nil))
 		}
 		if !wantFault {
 			work.notes, work.stats = nil, nil
@@ -400,6 +451,74 @@ func planSession(t *testing.T, run *ev.Run, si, nPlans int) *violation {
 		}
 	}
 	return nil
+}
+
+// faultingScript builds a transaction script that faults in one of the ways
+// that leave different things behind in the VM the block reuses for the next
+// transaction. It returns the script, its system fee and "kind: description".
+func (w *world) faultingScript(r *rng.R, m *model) ([]byte, int64, string) {
+	bw := io.NewBufBinWriter()
+	p := w.A
+	live := -1
+	for _, s := range r.Perm(nSlots) {
+		if m.exists[s] && !m.blocked[s] {
+			live = s
+		}
+	}
+	kind := r.Intn(9)
+	if live < 0 && (kind == 1 || kind == 4 || kind == 6 || kind == 7) {
+		kind = 0
+	}
+	fee := int64(10_0000_0000)
+	// an effect first, so that the fault discards something
+	emit.AppCall(bw.BinWriter, p.GasH, "transfer", callflag.All, p.Users[6].Hash(), w.sinks[0], int64(1+r.Intn(1000)), nil)
+	emit.Opcodes(bw.BinWriter, opcode.DROP)
+	callPlan := func(plan []step, wr int) {
+		b2 := io.NewBufBinWriter()
+		emit.AppCall(b2.BinWriter, w.slotHash[live], "run", callflag.All, w.encode(live, plan))
+		bw.BinWriter.WriteBytes(wrapCall(wr, b2.Bytes()))
+	}
+	put := step{Op: opPut, K: "pf", V: fmt.Sprint(r.Intn(100))}
+	ntf := step{Op: opNotify, N: 8000 + r.Intn(100)}
+	desc := ""
+	switch kind {
+	case 0:
+		desc = "entry-throw: GAS transfer, then an uncaught THROW in the entry script"
+		emit.Opcodes(bw.BinWriter, opcode.PUSH1, opcode.THROW)
+	case 1:
+		plan := []step{put, ntf, {Op: opCall, C: live, F: fAll, Sub: []step{put, {Op: opThrow}}}}
+		desc = "callee-throw: no handler anywhere: " + planString(plan)
+		callPlan(plan, wPlain)
+	case 2:
+		desc = "abort: ABORT"
+		emit.Opcodes(bw.BinWriter, opcode.ABORT)
+	case 3:
+		desc = "interop-error: call to a missing contract"
+		emit.AppCall(bw.BinWriter, util.Uint160{0xaa, 0xcc}, "run", callflag.All, []any{})
+	case 4:
+		var plan []step
+		for i := 0; i < 25; i++ {
+			plan = append(plan, step{Op: opPut, K: fmt.Sprintf("g%d", i), V: "vvvvvvvvvvvvvvvvvvvvvvvv"})
+		}
+		desc = "out-of-gas: in the middle of 25 writes"
+		callPlan(plan, wPlain)
+		fee = int64(300_0000 + r.Intn(1500_0000))
+	case 5:
+		desc = "vm-range-error: uncaught catchable PICKITEM out of range"
+		emit.Opcodes(bw.BinWriter, opcode.NEWARRAY0, opcode.PUSH0, opcode.PICKITEM)
+	case 6:
+		plan := []step{put, ntf, {Op: opThrow}}
+		desc = "rethrown-by-finally: TRY { callee throws } FINALLY { }: " + planString(plan)
+		callPlan(plan, wTryFinallyOnly)
+	case 7:
+		plan := []step{put, {Op: opLocalTry, Sub: []step{ntf, {Op: opThrow}}}, {Op: opTryCall, C: live, F: fAll, Sub: []step{put, {Op: opThrow}}}, ntf, {Op: opThrow}}
+		desc = "throw-after-caught-throws: " + planString(plan)
+		callPlan(plan, wPlain)
+	default:
+		desc = "assert: ASSERT false inside an open TRY"
+		bw.BinWriter.WriteBytes(wrapCall(wTryCatch, []byte{byte(opcode.PUSH0), byte(opcode.ASSERT)}))
+	}
+	return bw.Bytes(), fee, desc
 }
 
 // setupFailure turns a failed set-up into a violation when the node misbehaved
